@@ -25,7 +25,7 @@ func init() { checks["C02"] = c02{} }
 func (c02) Level() string { return "exploration" }
 func (c02) NumCases(tier string) int {
 	if tier == "thorough" {
-		return 150000
+		return 300000
 	}
 	return 6000
 }
